@@ -265,6 +265,14 @@ def check_schedule(case):
                 break
             k = o[0]
             now = rig.now
+            # a completion that is due within the lateness window [due, due+J] may or may not have happened before this
+            # operation (no step marker comes with it): there the real show says which, outside the window the model does
+            for hh in handles.values():
+                mo = hh["model"]
+                if (not mo.stopped and mo.next_time is not None and mo.idx >= mo.n and mo.loops == 0 and hh["show"] is not None
+                        and mo.next_time - EPS <= now <= mo.next_time + mo.J + EPS and hh["show"].stopped):
+                    classes.add("operation inside the lateness window of a completion")
+                    mo._wrap(mo.next_time)      # pylint: disable=protected-access
             try:
                 if k == "play":
                     h_, a = o[1], o[2]
